@@ -43,8 +43,8 @@ def node : Expr → Expr
 
 /-- the `loop` of `process_expression` -/
 def processExpression : Expr → Expr
-  | .cast e _ => if canReturnMultiple e then .paren e else processExpression e
-  | .inst p _ => if canReturnMultiple p then .paren p else processExpression p
+  | .cast e _ => if canReturnMultipleSyn e then .paren e else processExpression e
+  | .inst p _ => if canReturnMultipleSyn p then .paren p else processExpression p
   | e => e
 
 /-- the `while let` of `process_prefix_expression` -/
